@@ -28,7 +28,7 @@ ID = 'C16'
 HASHSEED_IS_VIOLATION = False
 
 TIERS = {
-    'quick': {'runs': 12000, 'replica_runs': 200, 'hash_seeds': [1, 4242], 'timeout_s': 420, 'shrink_s': 40},
+    'quick': {'runs': 36000, 'replica_runs': 400, 'hash_seeds': [1, 4242], 'timeout_s': 420, 'shrink_s': 40},
     'thorough': {'runs': 200000, 'replica_runs': 2000, 'hash_seeds': [1, 7, 99, 4242, 31337],
                  'timeout_s': 3000, 'shrink_s': 120},
 }
